@@ -18,7 +18,8 @@ JOBS = {
     # a non-ASCII payload (LCD message): the checksum must be the one the firmware computes over the bytes it receives
     "J9": ["M117 Héllo ∅", "G1 X1 ; fin"],      # (an even number of Latin-1 letters would cancel out in the XOR)
     # several bracketed comments on one line, code between them, and a line made of comments only
-    "J10": ["G0 X0 Y0 (rapid to origin) Z5 (clearance plane)", "(op 10) G1 Z-1 F100 (plunge)", "(setup)(sheet 2)", "G1 X1 (a) Y2 (b) ; c (d)"],
+    "J10": ["G0 X0 Y0 (rapid to origin) Z5 (clearance plane)", "(op 10) G1 Z-1 F100 (plunge)", "(setup)(sheet 2)", "G1 X1 (a) Y2 (b) ; c (d)",
+            "G1 X9 ;@ seam", "G1 X8 ; see ;@pause"],
     "J8": ["G1 Z0.2", "G1 X1 E1", "G1 Z0.6", "G0 X5", "G1 Z0.2", "G1 X6 E2", "G1 Z0.4", "G1 X7 E3"],
 }
 COMMENT_RE = re.compile(r"\([^()]*\)|;.*")
@@ -61,6 +62,12 @@ def _run_execution(cfg, prefix, record=False):
             jm = {"name": jname, "job_start": len(ex.dev.log), "accepted_start": len(fw.accepted)}
             marks["jobs"].append(jm)
             jm["started"] = p.startprint(gcoder.GCode(list(JOBS[jname])))
+            if cfg.get("second_start"):
+                # the application asks for another print while this one is mid-stream: the call is refused (documented)
+                # and must not disturb the running job
+                while p.printing and p.queueindex < 2:
+                    sleep(0.01)
+                jm["second_start"] = p.startprint(gcoder.GCode(["G28", "M105"]))
             while p.printing:
                 sleep(0.01)
             jm["print_end"] = len(ex.dev.log)
@@ -249,6 +256,11 @@ def plan(tier):
         for dialect in ("A", "B"):
             for corrupt in ((), (2,)):
                 base = {"job": "J3", "dialect": dialect, "greeting": None, "eager": False, "corrupt": corrupt, "debug_log": True}
+                items.append(({**base, "line_points": True}, 0, None))
+                items.append(({**base, "line_points": False}, 1, None))
+        for dialect in ("A", "B"):
+            for corrupt in ((), (2,), (4,)):
+                base = {"job": "J4", "dialect": dialect, "greeting": None, "eager": False, "corrupt": corrupt, "second_start": True}
                 items.append(({**base, "line_points": True}, 0, None))
                 items.append(({**base, "line_points": False}, 1, None))
         for dialect in ("A", "B"):
